@@ -548,3 +548,13 @@ Proof.
   eapply exact_beats; [apply normalize_idem|exact Hm|now rewrite compatible_norm_host|].
   eapply none_better; eassumption.
 Qed.
+
+(* Windows and macOS hosts run Linux images in a VM: whether such a host can run a linux entry is what a Linux host with
+   the same architecture and variant could run - neither side's OS version plays a part *)
+Lemma vm_hosts_run_linux_as_linux h t :
+  (os h = "windows" \/ os h = "darwin") -> os (normalize t) = "linux" ->
+  compatible_n h t = compatible_n (set_os h "linux") t.
+Proof.
+  intros Hh Ht. unfold compatible_n. cbn [os arch variant set_os]. rewrite Ht.
+  destruct Hh as [-> | ->]; cbn; reflexivity.
+Qed.
